@@ -2226,9 +2226,12 @@ func (s *Server) ServeConn(c net.Conn) error {
 		c = pic
 	}
 
+	s.setState(c, StateNew)
+
 	if !s.tryAcquireConcurrency() {
 		s.writeFastError(c, StatusServiceUnavailable, "The connection cannot be served because Server.Concurrency limit exceeded")
 		c.Close()
+		s.setState(c, StateClosed)
 		return ErrConcurrencyLimit
 	}
 	defer s.releaseConcurrency()
